@@ -51,6 +51,7 @@ type Conn struct {
 	reads  int // completed Read calls
 
 	wdeadline time.Time
+	onceErr   error
 	rdeadline time.Time // read deadline (zero: none)
 	timeouts  int       // reads that ended with a deadline error
 	writes    []WriteRec
@@ -101,6 +102,15 @@ func (c *Conn) FeedErr(err error) {
 	c.mu.Unlock()
 }
 
+// FeedErrOnce makes exactly one Read fail with err once the queued fragments are consumed; later
+// reads go on with what is fed afterwards (a transient receive error).
+func (c *Conn) FeedErrOnce(err error) {
+	c.mu.Lock()
+	c.onceErr = err
+	c.cond.Broadcast()
+	c.mu.Unlock()
+}
+
 // FeedWithErr queues fragments and the error that follows them in one step, so that (with
 // ErrWithData) the read that takes the last fragment also reports the error.
 func (c *Conn) FeedWithErr(err error, frags ...[]byte) {
@@ -142,6 +152,13 @@ func (c *Conn) Read(p []byte) (int, error) {
 				return n, c.rerr
 			}
 			return n, nil
+		}
+		if c.onceErr != nil {
+			err := c.onceErr
+			c.onceErr = nil
+			c.reads++
+			c.cond.Broadcast()
+			return 0, err
 		}
 		if c.rerr != nil {
 			c.reads++
